@@ -101,6 +101,9 @@ type FnTr struct {
 	refute   bool        // counterexample search: bounded unrolling, inlining, no quantifiers
 	unrollK  int
 	excEdges []excEdge   // refute mode: precise exceptional edges
+	privAllocObj  map[*ssa.Alloc]*Term // private locals of the top-level function: object ids
+	privAllocList []*ssa.Alloc
+	excSlots      []excSlot // proof mode: content of the result slots at every covered panic point
 	stateRecs map[string]*SpecFunc
 	globalSeen map[*ssa.Global]bool
 	globalList []*ssa.Global // package variables this function mentions, in order of first mention
@@ -649,6 +652,13 @@ func (tr *FnTr) check(kind string, cond *Term, p token.Pos) {
 	tr.panicEdge(kind, cond, p)
 }
 
+func (tr *FnTr) reachOrTrue() *Term {
+	if tr.st.Reach == nil {
+		return tTrue
+	}
+	return tr.st.Reach
+}
+
 // noteGlobal records that this function (top-level frame) mentions package variable g and
 // reports whether it was known already. The per-function list keeps VCs independent of what
 // was verified before, and in a fixed order.
@@ -698,6 +708,94 @@ func (tr *FnTr) recoverCovers() bool {
 	return false
 }
 
+// rootAllocOf follows address arithmetic back to the local variable it starts from.
+func rootAllocOf(v ssa.Value) *ssa.Alloc {
+	for i := 0; i < 20 && v != nil; i++ {
+		switch x := v.(type) {
+		case *ssa.Alloc:
+			return x
+		case *ssa.FieldAddr:
+			v = x.X
+		case *ssa.IndexAddr:
+			v = x.X
+		case *ssa.Slice:
+			v = x.X
+		case *ssa.ChangeType:
+			v = x.X
+		default:
+			return nil
+		}
+	}
+	return nil
+}
+
+// loopWritesAlloc: may an instruction of the loop write to local a (store through an address
+// derived from it, or hand such an address to a call)?
+func loopWritesAlloc(l *Loop, a *ssa.Alloc) bool {
+	for b := range l.Body {
+		for _, in := range b.Instrs {
+			switch x := in.(type) {
+			case *ssa.Store:
+				if rootAllocOf(x.Addr) == a {
+					return true
+				}
+			case ssa.CallInstruction:
+				for _, arg := range x.Common().Args {
+					if rootAllocOf(arg) == a {
+						return true
+					}
+				}
+				if x.Common().IsInvoke() && rootAllocOf(x.Common().Value) == a {
+					return true
+				}
+			}
+		}
+	}
+	return false
+}
+
+// excSlot: what the result slots hold at one panic point covered by the recovering defer.
+type excSlot struct {
+	Reach *Term
+	Vals  []*Term // one term per cell of each slot, in slot order
+}
+
+// resultSlots: the locals that the recover block of the function reads (named or synthesised
+// results), with their object ids.
+func (tr *FnTr) resultSlots() (allocs []*ssa.Alloc) {
+	top := tr.top
+	if top.fn == nil || top.fn.Recover == nil {
+		return nil
+	}
+	seen := map[*ssa.Alloc]bool{}
+	for _, in := range top.fn.Recover.Instrs {
+		if u, ok := in.(*ssa.UnOp); ok && u.Op == token.MUL {
+			if a, ok := u.X.(*ssa.Alloc); ok && !seen[a] && top.privAllocObj[a] != nil {
+				seen[a] = true
+				allocs = append(allocs, a)
+			}
+		}
+	}
+	return
+}
+
+func (tr *FnTr) noteExcSlots(reach *Term) {
+	top := tr.top
+	slots := tr.resultSlots()
+	if len(slots) == 0 {
+		return
+	}
+	var vals []*Term
+	for _, a := range slots {
+		obj := top.privAllocObj[a]
+		n := sizeOf(a.Type().Underlying().(*types.Pointer).Elem())
+		for k := 0; k < n && k < 8; k++ {
+			vals = append(vals, Select(Select(tr.st.Mem, obj), Int(int64(k))))
+		}
+	}
+	top.excSlots = append(top.excSlots, excSlot{Reach: reach, Vals: vals})
+}
+
 type excLock struct {
 	Reach, Locks *Term
 }
@@ -714,6 +812,7 @@ func (tr *FnTr) panicEdge(kind string, ok *Term, p token.Pos) {
 	if !top.refute && covered && !tr.excMode {
 		if r := And(tr.st.Reach, Not(ok)); !r.IsFalse() {
 			top.excLocks = append(top.excLocks, excLock{Reach: r, Locks: tr.st.Locks})
+			tr.noteExcSlots(r)
 		}
 	}
 	if kind == "nil" && top.ct != nil && top.ct.NoNilCheck && !covered && !tr.excMode {
@@ -806,6 +905,14 @@ func (tr *FnTr) procLoop(l *Loop) {
 		}
 		if modAny {
 			hst.Mem = tr.vc.Fresh("mem_"+lname, SMem)
+			// private locals (address never leaves the function) that nothing in the loop
+			// writes to keep their content
+			for _, a := range tr.top.privAllocList {
+				if obj := tr.top.privAllocObj[a]; obj != nil && !l.Body[a.Block()] && !loopWritesAlloc(l, a) {
+					hst.Mem = Store(hst.Mem, obj, Select(est.Mem, obj))
+				}
+			}
+			hst.Mem = tr.vc.Def("mem_"+lname+"_p", hst.Mem)
 		} else {
 			hst.Mem = tr.havocMem(est.Mem, est.Alloc, fr.frame, allocs, lname)
 		}
@@ -816,6 +923,7 @@ func (tr *FnTr) procLoop(l *Loop) {
 		tr.assumeDataInv()
 		tr.st = save
 	}
+	tr.st = hst // typing facts of the header values are guarded by the header's reachability
 	for i, p := range phiInstrs {
 		v := tr.freshVal(tr.vname(p)+"_h", p.Type(), hst.Alloc)
 		// loop-invariant phi (all back-edge operands are the phi itself): keep entry value
@@ -1157,7 +1265,7 @@ func (tr *FnTr) globalSeparation(obj *Term, elem types.Type) {
 		}
 	}
 	if len(cs) > 0 {
-		tr.vc.Assume(And(cs...))
+		tr.vc.Assume(Implies(tr.reachOrTrue(), And(cs...)))
 	}
 }
 
@@ -1208,7 +1316,7 @@ func (tr *FnTr) ptrSeparation(obj, off *Term, elem types.Type) {
 		cs = append(cs, Or(Ne(obj, p.obj), Le(Add(off, Int(int64(sz))), p.off), Le(Add(p.off, Int(int64(psz))), off)))
 	}
 	if len(cs) > 0 {
-		tr.vc.Assume(And(cs...))
+		tr.vc.Assume(Implies(tr.reachOrTrue(), And(cs...)))
 	}
 	top.typedPtrs = append(top.typedPtrs, typedObj{obj: obj, elem: elem, off: off})
 }
@@ -1266,7 +1374,9 @@ func (tr *FnTr) assumeTyped(v Val, alloc *Term) {
 			}
 		}
 	}
-	tr.vc.Assume(typingFacts(v, alloc))
+	// guarded by reachability: on executions that do not pass here the value is whatever the
+	// memory holds at a meaningless address, and need not be well typed
+	tr.vc.Assume(Implies(tr.reachOrTrue(), typingFacts(v, alloc)))
 	if alloc != nil {
 		for i, lf := range layoutOf(v.T).Leaves {
 			if lf.K == LObj && !lf.Str {
